@@ -28,6 +28,8 @@ Requests
    s=<ver>:<keyid>:<fp>:<mat>:<wl>:<ser bx>:<sig>.<sig>… ht= lg=`  (`Signed*Key::verify_bindings`)
 * `snd_msg i=<index> m=<OPS body|->:<signature body> … data=<bx> kv= … ht= lg=` (`verify_nested_explicit`
   on a message with several signatures, each hashed in its own mode)
+* `snd_wire i=<index> h=<p:<signature body>|o:<OPS body>> … t=<trailing signature body> … data= kv= … ht= lg=`
+  (the same on the message as on the wire: the model pairs One-Pass headers and trailing signatures itself)
 * `snd_fields sig=<packet body>` → `ok:<name>@<off>+<len>,…` | `err:parse`
 -/
 namespace Rpgp.Ops.C02
@@ -260,6 +262,52 @@ def handleMsg (a : Args) : Option String := do
         | some dg => pure (showRes (verifyInline (prims t) k m.sig (some dg)))
       | _, _ => pure "err:noneslot"
 
+def parseHead (s : String) : Option (Option MsgHead) :=
+  match s.splitOn ":" with
+  | ["p", g] => do
+    let body ← fromHex g
+    pure ((parseSigPrefix body).map MsgHead.prefixed)
+  | ["o", g] => do
+    let body ← fromHex g
+    pure ((parseOpsPrefix body).map fun w => MsgHead.onePass (ofWireOps w))
+  | _ => none
+
+/-- `snd_wire i=<index> h=<p:<signature body>|o:<OPS body>> … t=<trailing signature body> … data= k… ht= lg=`:
+`verify_nested_explicit(i, key)` on a signed message as on the wire (heads in order of appearance,
+trailing Signature packets in wire order); the pairing is the model's (`pairMessage`) -/
+def handleWire (a : Args) : Option String := do
+  let i ← a.nat "i"
+  let t ← tablesOf a
+  let k ← vkeyOf a "k"
+  let d ← (a.get? "data") >>= parseBx
+  let hs ← (Args.all a "h").mapM parseHead
+  let ts ← (Args.all a "t").mapM fromHex
+  match hs.mapM id, ts.mapM parseSig with
+  | some heads, some trailing =>
+    let chunks := if d.isEmpty then [] else [d]
+    match heads.findSome? (headConstructionError hashKnown) with
+    | some g => pure ("err:" ++ guardName g)
+    | none =>
+      match pairMessage hashKnown heads trailing with
+      | none => pure "err:read"
+      | some entries =>
+        let pres : List (Except Guard (Option (Byte × Bytes))) := entries.map fun
+          | none => .ok none
+          | some m => inlinePre hashKnown m.ops m.sig chunks
+        match collectSlots pres with
+        | .error g => pure ("err:" ++ guardName g)
+        | .ok slots =>
+          match slots[i]? with
+          | some (some (_, p)) =>
+            match (entries.filterMap fun e => e.map (·.sig))[i]? with
+            | some sg =>
+              match lookup t p with
+              | none => pure "err:norow"
+              | some dg => pure (showRes (verifyInline (prims t) k sg (some dg)))
+            | none => pure "err:noneslot"
+          | _ => pure "err:noneslot"
+  | _, _ => pure "err:parse"
+
 def handleFields (a : Args) : Option String := do
   let body ← a.bytes "sig"
   match Wire.sigParse (Wire.embFor body) body with
@@ -275,6 +323,7 @@ def handle (op : String) (a : Args) : Option String :=
   | "snd_cert" => handleCert a
   | "snd_fields" => handleFields a
   | "snd_msg" => handleMsg a
+  | "snd_wire" => handleWire a
   | _ => none
 
 end Rpgp.Ops.C02
